@@ -177,6 +177,21 @@ structure IterSt where
   offset   : Nat
 deriving Repr
 
+def coloSkip (colo : Option (List Nat)) (idx : Nat) : Bool :=
+  match colo with
+  | some l => decide (idx ∉ l)
+  | none   => false
+
+def resEmpty (res : Option (List Slot)) : Bool :=
+  match res with
+  | some l => decide (l = [])
+  | none   => true
+
+def resList (res : Option (List Slot)) : List Slot :=
+  match res with
+  | some l => l
+  | none   => []
+
 /-- the `for node in self._iterate_nodes()` loop; `count` = nodes still to yield.
     Returns allocation state and the final `_node_offset`. -/
 def nodeLoop (c : Cfg) (nodes : List NodeSt) (r : Req) (cps spn req : Nat) (mpi : Bool)
@@ -189,7 +204,7 @@ def nodeLoop (c : Cfg) (nodes : List NodeSt) (r : Req) (cps spn req : Nat) (mpi 
     | some node =>
       -- what `_iterate_nodes` does when resumed: advance the offset
       (fun (next : Nat) =>
-        if (match colo with | some l => decide (node.index ∉ l) | none => false) then
+        if coloSkip colo node.index then
           nodeLoop c nodes r cps spn req mpi colo skipTagged count { it with offset := next }
         else if node.index ∈ skipTagged then
           nodeLoop c nodes r cps spn req mpi colo skipTagged count { it with offset := next }
@@ -199,7 +214,7 @@ def nodeLoop (c : Cfg) (nodes : List NodeSt) (r : Req) (cps spn req : Nat) (mpi 
                     (if ¬ mpi then false else (it.isFirst || c.scattered || isLast)) with
             | .error e => .error (e, it.offset)
             | .ok res =>
-              if (match res with | some l => decide (l = []) | none => true) then
+              if resEmpty res then
                 if ¬ c.scattered then
                   nodeLoop c nodes r cps spn req mpi colo skipTagged count
                     { it with alc := [], rem := req, isFirst := true, isLast := false, offset := next }
@@ -215,7 +230,7 @@ def nodeLoop (c : Cfg) (nodes : List NodeSt) (r : Req) (cps spn req : Nat) (mpi 
                     nodeLoop c nodes r cps spn req mpi colo skipTagged count
                       { it with alc := it.alc ++ new, rem := it.rem - new.length, isFirst := false,
                                 isLast := isLast, offset := next })
-                  (match res with | some l => l | none => []))
+                  (resList res))
             (it.isLast || decide (it.rem < spn)))
         ((it.offset + 1) % nodes.length)
 
